@@ -59,3 +59,33 @@ Print Assumptions C12_confined_command.
 Theorem C12_tables_ns : tables_ok_ns current = true.
 Proof. vm_compute. reflexivity. Qed.
 Print Assumptions C12_tables_ns.
+
+(* ---------- confinement inside the walkers, all positions ---------- *)
+From Proofs Require Import WalkerRel RelCorollaries NsConfine.
+
+(* switching the flag off is the same as keeping it on with the identity as pseudonym function:
+   the walkers consult the flag only where they call that function (any tables, any mode,
+   field-name mode off) *)
+Theorem C12_flag_is_the_hash : forall tb cs c A t m,
+  mode_rfn m = false -> nodup_keys t ->
+  walk tb cs (set_nss c false) is_email A m t = walk tb cs (set_nss c true) is_email (with_hash A (fun s => s)) m t.
+Proof. intros tb cs c A t m. exact (walk_nss_off tb cs c is_email A t m). Qed.
+Print Assumptions C12_flag_is_the_hash.
+
+(* hence, at EVERY leaf position of every tree and for every walker: the outputs with the flag on
+   and off are equal, or the input leaf is a string s at a namespace position and the outputs are
+   the pseudonym of s (flag on) and s itself (flag off) *)
+Theorem C12_confined_walkers : forall tb cs c A t m p v,
+  mode_rfn m = false -> nodup_keys t -> jget t p = Some v -> is_leaf v ->
+  jget (walk tb cs (set_nss c true) is_email A m t) p = jget (walk tb cs (set_nss c false) is_email A m t) p \/
+  exists s, v = JStr s /\
+    jget (walk tb cs (set_nss c true) is_email A m t) p = Some (JStr (a_hash A s)) /\
+    jget (walk tb cs (set_nss c false) is_email A m t) p = Some (JStr s).
+Proof.
+  intros tb cs c A t m p v Hm Hn Hg Hl.
+  pose proof (walk_nss_confined tb cs c is_email A t m Hm Hn) as Hrel.
+  destruct (rel3_jget cs (set_nss c true) is_email A (with_hash A (fun s => s)) _ _ _ Hrel p v Hg Hl) as (d & Hok & Ha & Hb).
+  rewrite Ha, Hb. destruct d as [| ph | | | | | k]; try (left; destruct v; reflexivity).
+  simpl in Hok. destruct Hok as (_ & s & ->). right. exists s. auto.
+Qed.
+Print Assumptions C12_confined_walkers.
